@@ -30,10 +30,10 @@ ASSUMPTIONS = c13.ASSUMPTIONS + ['"meaning of the generated code" is compared as
                                  'as name-indexed maps for permutations (order differences are recorded, not alarmed)']
 
 META = {
-    "text": "Proved for all inputs on the model: the line-buffer automaton returns to its initial state after every complete statement, so splitting a concatenation of line lists is the concatenation of the splits (split_concat, for complete first parts), blank and comment-only lines are neutral, whitespace normalisation is idempotent, and scan_render_partial: for every well-formed token list (chunks, variables with/without index incl. inner whitespace, `{ }`/`< >` terms with inner whitespace and index, functions with look-ahead whitespace, keywords from the reflected list, verbatim fragments) and every whitespace choice, scanning the rendered text yields exactly the tokens with their kinds, names, raw indexes and spans; layout_invariance_scan is its corollary (two layouts of the same tokens scan to the same kind/name/index sequence). Tied to the real parser by strict comparison on every grammar script under every layout; the oracle compares parsed symbols and ast of code across layouts, merges of single-statement parses, permutations and normal-form re-parses on the real code.",
+    "text": "Proved for all inputs on model M2: scan_render — for every well-formed token list (inert chunks, `<` operator, variables with/without adjacent index `[ w1 text w2 ]`, `{ w1 n w2 }` / `< w1 n w2 >` terms with optional index, functions `n w (`, keywords of the reflected keyword.kwlist, verbatim fragments) and EVERY choice of the whitespace strings, scanning the rendered text returns exactly the tokens' (kind, name, raw index, span) in order; layout_invariance_scan / layout_invariance_terms — two layouts of the same tokens give the same matches and the same parsed terms (kind, name, lag/lead index), explicit `[0]` = no index; split_concat — after a complete part the line-buffer automaton is back in its initial state, so the statements of l1 ++ l2 (and of s1 ++ '\\n' ++ s2) are those of the parts, an error in the first part is final, blank and comment-only lines are neutral; normaliseWs is idempotent. On every run the driver confirms that the statements of the generated scripts under every layout satisfy the hypotheses of scan_render (executable checker wfB, proved sound).",
     "design_ref": "DESIGN.md §5 M2, §6 C14 (and C01 scan_render), §7 row 11, §10 fall-back, Appendix C",
-    "note": "scan_render is proved at the scanner level (kinds, names, raw indexes, spans); the step from scanned terms to symbols (Symbol.combine, merge) is M3 (another work package) and is covered here by the oracle and the correspondence only. Known findings: whitespace between a name and `[` is not neutral (`Y = W [1]` loses the lag), whitespace inside/before the index brackets of the left-hand side is rejected (`Y[ 0 ] = X`).",
-    "technique": "Lean 4 proof (single-step lemma per regex alternative + induction over the token list with a boundary condition; automaton invariant) + differential correspondence + metamorphic oracle"
+    "note": "scan_render is fully proved for the token grammar above (not a _partial); outside it: a literal `{` that is not a parameter, identifiers glued to numbers (`1e5`), empty index text. layout_invariance is proved at scanner/term level; the step to Symbols (Symbol.combine, cross-statement merge, permutation) and the normal-form fixed point at symbol level belong to M3 and are covered here by the metamorphic oracle on the real code (layouts, merge of single-statement parses, permutations, re-parse of normalised equations) and by strict correspondence. Known findings: whitespace between a name and `[` is not neutral; whitespace inside/before the index brackets of the left-hand side is rejected.",
+    "technique": "Lean 4 proof (single-step lemma per regex alternative + induction over the token list with a boundary condition; automaton decomposition; invariants of the three substitutions) + differential correspondence + metamorphic oracle"
 }
 
 
@@ -165,6 +165,28 @@ def check_nf(name, equation, code, rep, stream):
                     f'{[(x.equation, x.code) for x in again]}', case)
 
 
+def text_variants(prog, rng):
+    """Layout changes made on the text itself: whitespace-only blank lines, trailing whitespace, CRLF line ends,
+    blank lines at both ends (verbatim blocks are left alone)."""
+    spaced = gs.render(prog, gs.catalogue_layout('blank_lines'))
+    lines, fence = [], False
+    for ln in spaced.split('\n'):
+        if ln.startswith('```'):
+            fence = not fence
+        lines.append(rng.choice(['  ', '\t', ' \t ']) if (ln == '' and not fence) else ln)
+    yield 'whitespace-only-lines', '\n'.join(lines)
+    plain = gs.render(prog, gs.PLAIN)
+    lines, fence = [], False
+    for ln in plain.split('\n'):
+        is_fence = ln.startswith('```')
+        lines.append(ln if (fence or is_fence) else ln + rng.choice(['  ', '\t', ' ']))
+        if is_fence:
+            fence = not fence
+    yield 'trailing-whitespace', '\n'.join(lines)
+    yield 'crlf', plain.replace('\n', '\r\n')
+    yield 'blank-lines-at-ends', '\n\n' + plain + '\n\n'
+
+
 def oracle_program(prog, rng, rep, n_random, stream):
     plain = gs.render(prog, gs.PLAIN)
     base, tag = parse(plain)
@@ -186,6 +208,10 @@ def oracle_program(prog, rng, rep, n_random, stream):
                  sample={'layout': name, 'text': text} if zlib.crc32(text.encode()) % 4999 == 0 else None)
         check_layout('layout-not-neutral:' + (name if not name.startswith('random') else 'composition'), plain, text,
                      rep, stream, layout=name, base=base)
+    for name, text in text_variants(prog, rng):
+        texts.append(text)
+        rep.case((stream, text), nontrivial=True)
+        check_layout('layout-not-neutral:' + name, plain, text, rep, stream, layout=name, base=base)
     stmts = [gs.render(gs.Program([st]), gs.PLAIN) for st in prog.statements]
     rep.case((stream, 'merge', plain), nontrivial=len(stmts) > 1)
     check_merge(stmts, rep, stream)
